@@ -143,10 +143,22 @@ Definition c02_copy_code (aa : bool) (pp : option (graph * graph)) (fd : fragdic
     | n => n
     end) 0%nat (rev meta).
 
+(** ---- clause 8: two atoms joined by the squash operator are ONE fine node recording both coarse nodes; a surviving
+    fine edge whose bonding descriptor starts with '!' means the pair was not merged (one of the two atoms then
+    records only one of the coarse nodes it stems from) *)
+Definition squash_bonding (v : pyval) : bool :=
+  match v with
+  | VTup (VStr ("!"%char :: _) :: _) | VList (VStr ("!"%char :: _) :: _) => true
+  | _ => false
+  end.
+Definition no_squash_edge (mol : graph) : bool :=
+  forallb (fun e => match aget (S "bonding") (snd e) with Some v => negb (squash_bonding v) | None => true end) (edges_data mol).
+
 Definition holds_C02 (aa : bool) (pp : option (graph * graph)) (fd : fragdict) (meta mol : graph) (fgs : fgraphs) : nat :=
   if negb (c02_fragid_ok meta mol) then 1%nat
   else if negb (c02_exact_ok meta mol fgs) then 2%nat
   else if negb (c02_cover_ok meta mol fgs) then 3%nat
+  else if negb (no_squash_edge mol) then 8%nat
   else c02_copy_code aa pp fd meta mol fgs.
 
 (** ---- defect class shared by C02 and C11: the running fragment counter differs from the coarse key
